@@ -44,6 +44,8 @@ type Ctx struct {
 
 	Known     []KnownFinding
 	knownHit  map[string]bool
+	c15Solo     map[string]*spec.Outcome // fresh-process solo references (C15 O1)
+	c15SoloRuns int
 	Viol      []*Violation
 	Trouble   []string
 	WallCap   time.Duration
